@@ -30,7 +30,8 @@ pub fn stream_records(cx: &mut Ctx, out: &mut Vec<Rec>, id: u16, role: u16, nois
         let content = pattern(0x40 + i as u8 * 0x55, total);
         let mut g = Vec::new();
         let mut p = 0;
-        let style = cx.ch.pick(4);
+        // huge streams in tiny records only multiply the record count: keep records large there
+        let style = if total > 4000 { cx.ch.one_of(&[0u32, 3]) } else { cx.ch.pick(4) };
         while p < total {
             let rem = total - p;
             let k = match style {
@@ -428,7 +429,8 @@ impl<'a, 'c> SDriver<'a, 'c> {
             steps += 1;
             if steps > self.wire.len() * 4 + 200 { vfail!("hang", "stream::Parser", "quiescence not reached after {steps} steps"); }
         }
-        if self.pos < self.cap && self.failed.is_none() {
+        // a parser held at an end-of-stream header legitimately stops consuming
+        if self.pos < self.cap && self.failed.is_none() && !self.saw_end {
             if self.allow_stuck {
                 self.stuck = true;
             } else {
